@@ -10,6 +10,7 @@ Var(x) == [t |-> "var", x |-> x]
 NoArgs == [hasargs |-> FALSE, args |-> <<>>, kw |-> <<>>]
 NoM == [name |-> ""] @@ NoArgs
 Metas == {[name |-> "decl", version |-> "1.0", target |-> NoM, type |-> NoM, incs |-> <<>>, body |-> <<>>]}
+Kw(k, v) == [k |-> k, v |-> v]
 Stmt(op, ha, args, kw, modes, br) == [t |-> "stmt", op |-> op, hasargs |-> ha, args |-> args, kw |-> kw, modes |-> modes, br |-> br]
 Bin(op, l, r) == [t |-> "bin", op |-> op, l |-> l, r |-> r]
 NegE(a) == [t |-> "neg", a |-> a]
@@ -60,4 +61,10 @@ Readers == {Stmt("G", TRUE, <<[t |-> "idx", x |-> "A", e |-> I(k)]>>, <<>>, <<I(
            \cup {Stmt("H", TRUE, <<[t |-> "idx", x |-> "A", e |-> Bin("+", Var("a"), I(1))]>>, <<>>, <<I(1)>>, "none"),
                  [t |-> "var", ty |-> "int", x |-> "a", e |-> I(1)]}
 ReadMenu == RectArrays \cup Readers
+\* the same name declared again with other contents and another shape, with reads before and after
+Redecl == { [t |-> "arr", ty |-> "int", x |-> "A", shape |-> <<>>, rows |-> << <<I(1), I(2)>>, <<I(3), I(4)>> >>],
+            [t |-> "arr", ty |-> "int", x |-> "A", shape |-> <<>>, rows |-> << <<I(9), I(8), I(7), I(6), I(5)>> >>],
+            [t |-> "arr", ty |-> "float", x |-> "A", shape |-> <<>>, rows |-> << <<F(1, 2)>>, <<F(3, 2)>>, <<F(5, 2)>> >>],
+            Stmt("G", TRUE, <<[t |-> "idx", x |-> "A", e |-> I(1)]>>, <<>>, <<I(0)>>, "none"),
+            Stmt("H", TRUE, <<[t |-> "idx", x |-> "A", e |-> I(2)]>>, <<Kw("k", [t |-> "idx", x |-> "A", e |-> I(0)])>>, <<I(1)>>, "none") }
 =============================================================================
